@@ -364,6 +364,12 @@ def _history(R, case, X):
     init = [_spec_of(o) for o in pool]
     steps, laws = [], []
     X64 = X[:, 0:3].astype(float) if X.shape[1] in (3, 6) else np.zeros((0, 3))
+    size = n0                               # a program must only name objects that exist (else: harness error)
+    for st in case.get('program', []):
+        ids = st[1] if st[0] == 'compose' else ([] if st[0] == 'traj' else [st[1]])
+        if any(not 0 <= i < size for i in ids) or (st[0] == 'compose' and len(ids) < 2):
+            raise ValueError('invalid program for this pool')
+        size += {'inverse': 1, 'compose': 1, 'traj': 2 * n0}.get(st[0], 0)
 
     def snapshot():
         specs = [_spec_of(o) for o in pool]
@@ -710,9 +716,26 @@ def describe(case, obs):
 
 def shrink(case):
     n = len(case['poses'])
+    prog = case.get('program') or []
+    if prog:                                 # histories: drop the tail, or one step that creates no object
+        for c_prog in ([], prog[:len(prog) // 2], prog[:-1]):
+            if c_prog != prog:
+                c = dict(case)
+                c['program'] = c_prog
+                yield c
+        for k, st in enumerate(prog):
+            if st[0] in ('laws', 'rescale'):
+                c = dict(case)
+                c['program'] = prog[:k] + prog[k + 1:]
+                yield c
+    if case.get('pdtype', 'float64') == 'float64' and case.get('playout', 'C') != 'C':
+        c = dict(case)
+        c['playout'] = 'C'
+        yield c
     for i in range(n):
         if n > 1:
             c = dict(case)
+            c['program'] = []
             c['poses'] = case['poses'][:i] + case['poses'][i + 1:]
             m = len(c['poses'])
             c['splits'] = [k for k in case['splits'] if 0 < k < m]
